@@ -26,7 +26,7 @@ def design_checks(ck, tier):
             ("set/A123-win3", dict(mode="set", msgs="MsgsA123", init_a="{14}", init_b="{15}", win=3)),
             # receive window of 1 / 2 chunks with the delayed-SACK timer: NewDataWithinWindow at the boundary
             ("set/A123-rwnd1-delaysack", dict(mode="set", msgs="MsgsA123", init_a="{14}", init_b="{0}", win=3, rwnd=1, delay_sack="TRUE")),
-            ("set/A123-rwnd2-delaysack", dict(mode="set", msgs="MsgsA123", init_a="{14}", init_b="{0}", win=3, rwnd=2, delay_sack="TRUE"))]
+            ("set/A22-rwnd2-delaysack", dict(mode="set", msgs="MsgsA22", init_a="{14}", init_b="{0}", win=3, rwnd=2, delay_sack="TRUE"))]
     for label, kw in runs:
         res = sc.tlc_mc(ck, label.replace("/", "_"), timeout=1800 if tier == "thorough" else 900, **kw)
         vlib.tlc_ok(res, label)
